@@ -451,16 +451,18 @@ def hash_seeds(ctx, n_cases):
     ctx.extra["hash_seed_digests"] = digests
 
 
-def hash_seed_difference(battery_seed, n_cases, s0, s1):
-    """Re-run the battery under two hash seeds with every evaluation written out; the first record that differs."""
+def hash_seed_difference(battery_seed, n_cases, s0, s1, flags=("", "")):
+    """Re-run the battery under two hash seeds (or interpreter flags) with every evaluation written out; the first record that differs."""
     import ast
     d = common.scratch_dir()
     try:
         recs = []
-        for s in (s0, s1):
-            f = d / f"dump{s}.txt"
+        for i, s in enumerate((s0, s1)):
+            f = d / f"dump{i}.txt"
             env = dict(os.environ, PYTHONHASHSEED=str(s), PYTHONPATH=str(common.REPO / "src"))
-            subprocess.run([sys.executable, "-B", str(VERIF / "harness" / "seed_battery.py"), str(battery_seed), str(n_cases), str(f)], env=env, capture_output=True, timeout=1200)
+            env.pop("PYTHONOPTIMIZE", None)
+            subprocess.run([sys.executable, "-B"] + ([flags[i]] if flags[i] else []) + [str(VERIF / "harness" / "seed_battery.py"), str(battery_seed), str(n_cases), str(f)],
+                           env=env, capture_output=True, timeout=1200)
             recs.append(f.read_text().splitlines() if f.exists() else [])
         for a, b in zip(*recs):
             if a != b:
